@@ -385,18 +385,28 @@ CLAIMED = {
         'of a part), C11-K2 (text in front of the end token is quoted without it).',
    ref='DESIGN.md §4 C11'),
  'C07': dict(
-   technique='Coq proof of the writer/reader attribute contract on lists regenerated from girwriter.py and girparser.py, of the default-value encodings and of the member length pairing + the project\'s own read/write cycle on scanner-written and shipped GIRs',
+   technique='Coq proof of the writer/reader attribute contract on lists regenerated from girwriter.py and girparser.py, of the default-value encodings, of the member length pairing and of the read/write cycle of the whole type sub-language (model of _write_type and _parse_type_simple) + in-Coq correspondence of that model with the real writer and reader + the project\'s own read/write cycle on scanner-written, altered and shipped GIRs',
    text='Theorems (Coq, axiom-free): every attribute name the GIR writer can write (extracted from the syntax tree of girwriter.py) is '
         'read by girparser.py, or is derived from data that is read, or is XML syntax (C07_attribute_contract, finite, regenerated); the '
         'encodings with defaults - readable/writable style flags, nullable/optional/allow-none per direction, direction with '
         'caller-allocates, array zero-termination - decode to what was encoded, for all values (C07_encodings); array length indices of '
         'structure members come back on the member they were written for (C07_member_lengths; the pairing as found is refuted by '
-        'C07_member_lengths_refuted_before_fix, fix 047a320). Tie: GIRs written by the real scanner for five generators (annotated '
+        'C07_member_lengths_refuted_before_fix, fix 047a320); THE TYPE SUB-LANGUAGE (Model/C07T.v: GIRWriter._write_type, '
+        'GIRParser._parse_type_simple/_parse_type/_parse_type_array_length, Namespace.type_from_name, GIRWriter._type_to_name): for EVERY '
+        'type the syntax tree can hold - C arrays and GLib array kinds with any fixed size, length index and zero-termination, lists, hash '
+        'tables, fundamental types, names of this and other namespaces, unresolved C types, nested to any depth - what the reader makes of '
+        'the written element is written as the same element again (C07_type_cycle), it is the same type unless a name of the own namespace '
+        'is spelled like a fundamental type (C07_type_read_back), and int(\'%d\' % n) = n for every n (C07_numbers). Tie: 300 (thorough '
+        '5000) generated type trees go through the real _write_type, _parse_type_simple and _write_type again (same XML), the written '
+        'element and the type read back are compared with Model.C07T.write_ty/read_ty inside Coq, and 150 (thorough 2500) elements of '
+        'other origin (odd attributes, several children, callbacks) with the reader\'s answer or exception; GIRs written by the real scanner for five generators (annotated '
         'callables, runtime-dump worlds, structure/virtual-method worlds, declaration worlds, structure members with anonymous '
         'unions/structures, function pointers and length-carrying arrays) and the 10 shipped tests/scanner/*-expected.gir files are read '
         'by GIRParser and written by GIRWriter three times in a row (the project\'s own passthrough) and must stay byte-identical.',
    note='PARTIAL: write(read(x)) = x for every GIR is validated per run, not proved; proved are the attribute contract, the '
-        'default encodings and the member pairing. Trusted: Coq kernel+VM; gen_c07.py (Python-ast walks of both files); stub lexer.',
+        'default encodings, the member pairing and the cycle of the type sub-language (hypotheses: namespace names without a dot, GI names '
+        'Namespace.Name, no <varargs/> inside a list or hash table, no named type called GLib.List/SList/HashTable; the target_foreign '
+        'flag of a type is not modelled). Trusted: Coq kernel+VM; gen_c07.py (Python-ast walks of both files); stub lexer.',
    ref='DESIGN.md §4 C07'),
 }
 
